@@ -126,6 +126,12 @@ pub struct Req {
     pub fault: Option<StoreFault>,
     /// the handler "panics" after its operations: the session is dropped without finalisation
     pub abandon: bool,
+    /// other cookies the client sends along with the session cookie: 0 none; 1 a valid cookie on the
+    /// same `Cookie` line, before the session cookie; 2 a valid cookie on a header line of its own,
+    /// before the session cookie's line; 3 an UNPARSABLE cookie (no value) on a line of its own before
+    /// it; 4 the same after it; 5 `=orphan` on a line of its own before it
+    #[serde(default)]
+    pub other_cookies: u8,
 }
 
 #[derive(Serialize, Deserialize, Clone, Debug, PartialEq)]
@@ -859,7 +865,40 @@ fn run_request(w: &mut World<'_>, ri: usize, req: &Req, shape: &str) {
             head.headers.insert(http::header::COOKIE, http::HeaderValue::from_str(&format!("{}=Z2FyYmFnZQ%3D%3D.xx", w.cfg.cookie_name)).unwrap());
         }
         (_, Some(e)) => {
-            head.headers.insert(http::header::COOKIE, http::HeaderValue::from_str(&e.header).unwrap());
+            // the client may hold other cookies too (HTTP/2 and some proxies split them over several
+            // `Cookie` header lines); a cookie pavex cannot parse on ANOTHER line must not hide the
+            // session cookie
+            let hv = |s: &str| http::HeaderValue::from_str(s).unwrap();
+            match req.other_cookies {
+                1 => {
+                    head.headers.insert(http::header::COOKIE, hv(&format!("theme=dark; {}", e.header)));
+                }
+                2 => {
+                    head.headers.append(http::header::COOKIE, hv("theme=dark; lang=en"));
+                    head.headers.append(http::header::COOKIE, hv(&e.header));
+                }
+                3 => {
+                    head.headers.append(http::header::COOKIE, hv("consent"));
+                    head.headers.append(http::header::COOKIE, hv(&e.header));
+                }
+                4 => {
+                    head.headers.append(http::header::COOKIE, hv(&e.header));
+                    head.headers.append(http::header::COOKIE, hv("consent"));
+                }
+                5 => {
+                    head.headers.append(http::header::COOKIE, hv("=orphan"));
+                    head.headers.append(http::header::COOKIE, hv(&e.header));
+                }
+                _ => {
+                    head.headers.insert(http::header::COOKIE, hv(&e.header));
+                }
+            }
+            if req.other_cookies != 0 {
+                w.out.count("other_cookies_sent_along", 1);
+                if req.other_cookies >= 3 {
+                    w.out.count("unparsable_cookie_on_another_header_line", 1);
+                }
+            }
         }
         _ => {}
     }
@@ -914,6 +953,8 @@ fn run_request(w: &mut World<'_>, ri: usize, req: &Req, shape: &str) {
         rm.ids_held.clear();
     } else if presented.is_some() && incoming.is_none() {
         w.out.violations.push(viol("C11", "cookie-roundtrip", format!("cookie not accepted back {shape}"), format!("req{ri}: the session cookie emitted earlier was not recognised when presented")));
+        // disarm the statement fault armed above: nothing of it may leak into the next run of this process
+        crate::gate::fail_after(None, 0);
         return;
     }
     // Move the pieces the async block needs out of `w` by reference.
@@ -1673,6 +1714,13 @@ fn check_c12_cookie(w: &mut World<'_>, ri: usize, rm: &ReqModel, c: Option<&SetC
     }
     if c.removal {
         w.out.count("removal_cookie_emitted", 1);
+        // what `will_sign`/`will_encrypt` promised must be what the wire carries: a removal cookie
+        // has an empty value, its signed or encrypted form does not (MAC / nonce + tag)
+        if (protected_enc || protected_sig) && c.raw_value.is_empty() {
+            w.out.violations.push(viol("C12", "cookie-protected", format!("removal cookie unprocessed on the wire (cookie name percent-encoded: {})", w.cfg.percent_encode && c.name != w.cfg.cookie_name), format!("req{ri}: the processor signs/encrypts `{}` and finalize_session attached the removal cookie on that ground, but the Set-Cookie header carries it verbatim (empty value, no MAC/ciphertext)", c.name)));
+        } else if protected_enc || protected_sig {
+            w.out.count("removal_cookie_processed_on_the_wire", 1);
+        }
     } else {
         w.out.count("session_cookie_emitted", 1);
         let client_nonempty = !rm.inv && !rm.cli.is_empty();
@@ -2146,7 +2194,7 @@ impl Sim for SesSim {
             }
             let fault = if arm == "fault" && rng.chance(1, 3) { Some(if rng.chance(1, 2) { StoreFault::Error(rng.below(4) as u8) } else { StoreFault::Crash(rng.below(4) as u8) }) } else { None };
             let abandon = arm == "fault" && rng.chance(1, 10);
-            reqs.push(Req { advance_ms, present, ops, fault, abandon });
+            reqs.push(Req { advance_ms, present, ops, fault, abandon, other_cookies: 0 });
         }
         let crypto_switch = if c12 && n >= 2 && rng.chance(1, 3) { Some((rng.usize(1, n - 1), rng.pick(&[Crypto::Sign, Crypto::Encrypt, Crypto::Sign, Crypto::None]).clone())) } else { None };
         // last draw of the generator (so that the rest of the script is the same function of the seed
@@ -2204,6 +2252,12 @@ impl Sim for SesSim {
         } else {
             None
         };
+        // later draw: other cookies travelling with the session cookie
+        for r in reqs.iter_mut() {
+            if rng.chance(1, 6) {
+                r.other_cookies = rng.usize(1, 5) as u8;
+            }
+        }
         Script { arm: arm.to_string(), cfg, reqs, crypto_switch, cookie_switch }
     }
 
@@ -2235,6 +2289,11 @@ impl Sim for SesSim {
             if r.abandon {
                 let mut t = s.clone();
                 t.reqs[i].abandon = false;
+                c.push(t);
+            }
+            if r.other_cookies != 0 {
+                let mut t = s.clone();
+                t.reqs[i].other_cookies = 0;
                 c.push(t);
             }
             if r.advance_ms != 0 {
